@@ -584,6 +584,10 @@ class _State:
             else:
                 self.m.register_function(name, fn, required_capabilities=capset)
             return "ok", None
+        if op == "retimeout":
+            # the public attribute `timeout` of the LIVE engine re-assigned: 0 / None ("no timeout") / positive again
+            self.m.timeout = {"zero": 0, "zerof": 0.0, "none": None, "pos": 5.0}[t[1]]
+            return "ok", None
         if op == "untool":
             name = unhexs(t[1])
             self.tools = [x for x in self.tools if x[0] != name]
